@@ -41,17 +41,18 @@ type fakeConn struct {
 }
 
 type env struct {
-	p         params
-	conns     []*fakeConn
-	consumed  map[string]int
-	leftover  map[string]int
-	finished  int
-	viol      []string
-	violKey   string
-	taken     map[string]bool // chunks removed from the input channel (seen by the client)
-	events    []string
-	afterStop bool
-	finOrder  []string
+	freeAcksUsed int
+	p            params
+	conns        []*fakeConn
+	consumed     map[string]int
+	leftover     map[string]int
+	finished     int
+	viol         []string
+	violKey      string
+	taken        map[string]bool // chunks removed from the input channel (seen by the client)
+	events       []string
+	afterStop    bool
+	finOrder     []string
 }
 
 type params struct {
@@ -73,6 +74,16 @@ type params struct {
 	horizon    time.Duration
 	boundCheck bool // C18: measure the stop duration
 	prop       string
+	// freeAcks scripts the first ACK-read answers of the run (indices into the ACK menu: 1 reset, 2 silent, 3 late, 4 unknown ID,
+	// 5 out of order), not charged to the deviation budget: the client STARTS in the interesting state (leftovers exist, a
+	// recovery stage is entered, more chunks outstanding than the window)
+	freeAcks []int
+	// ackerStopTimeout / channelTimeout scale the two waits of a soft stop down (defaults 180 s / 60 s) so that late ACKs can
+	// outlast them with few chunks
+	ackerStopTimeout time.Duration
+	channelTimeout   time.Duration
+	savedPattern     bool // every second chunk is fed with Saved=true (already on disk)
+	bigChunk         int  // > 0: payload bytes of chunk c1 (the send deadline depends on the size)
 }
 
 func (e *env) violate(key, format string, args ...any) {
@@ -154,6 +165,15 @@ func (c *fakeConn) SendChunk(chunk base.LogChunk, deadline time.Time) error {
 	if c.closed && !e.p.syncMode {
 		return closedErr("write")
 	}
+	// the send deadline leaves at least the documented time: base + size / minimum speed
+	if min := defs.ForwarderBatchSendTimeoutBase + time.Duration(len(chunk.Data)/defs.ForwarderBatchSendMinimumSpeed)*time.Second; deadline.Sub(vsched.VNow()) < min {
+		e.violate("send-deadline-too-short", "conn%d send %s (%d bytes): deadline %v ahead, the documented minimum is %v (base %v + size / %d B/s)", c.k, chunk.ID, len(chunk.Data), deadline.Sub(vsched.VNow()), min, defs.ForwarderBatchSendTimeoutBase, defs.ForwarderBatchSendMinimumSpeed)
+	}
+	if !deadline.After(vsched.VNow()) {
+		// a real socket fails at once when the deadline has already passed, whatever the upstream would answer
+		e.note("conn%d send %s: deadline already expired", c.k, chunk.ID)
+		return timeoutErr("write")
+	}
 	ans := 0
 	if e.p.sendAlt > 1 {
 		ans = vsched.Choose(e.p.sendAlt, "send")
@@ -221,7 +241,11 @@ func (c *fakeConn) ReadChunkAck(deadline time.Time) (string, error) {
 		return "", timeoutErr("read")
 	}
 	ans := 0
-	if e.p.ackAlt > 1 {
+	if e.freeAcksUsed < len(e.p.freeAcks) {
+		ans = e.p.freeAcks[e.freeAcksUsed]
+		e.freeAcksUsed++
+		e.note("conn%d ack-read: scripted answer %d", c.k, ans)
+	} else if e.p.ackAlt > 1 {
 		n := e.p.ackAlt
 		ans = vsched.Choose(n, "ack")
 	}
@@ -329,8 +353,11 @@ func (e *env) onConsumed(chunk base.LogChunk) {
 	if !ok {
 		e.violate("consumed-without-ack", "chunk %s reported delivered but no connection both transmitted it completely and acknowledged it", chunk.ID)
 	}
-	if want := "data-" + chunk.ID; string(chunk.Data) != want {
-		e.violate("consumed-altered", "chunk %s delivered with data %q", chunk.ID, chunk.Data)
+	if want := e.wantData(chunk.ID); string(chunk.Data) != want {
+		e.violate("consumed-altered", "chunk %s delivered with %d bytes of data, fed %d", chunk.ID, len(chunk.Data), len(want))
+	}
+	if chunk.Saved != e.wantSaved(chunk.ID) {
+		e.violate("consumed-altered:saved-flag", "chunk %s reported delivered with Saved=%v, fed with Saved=%v", chunk.ID, chunk.Saved, e.wantSaved(chunk.ID))
 	}
 }
 
@@ -346,9 +373,24 @@ func (e *env) onLeftover(chunk base.LogChunk) {
 	if e.finished > 0 {
 		e.violate("leftover-after-finished", "chunk %s handed back after OnFinished", chunk.ID)
 	}
-	if want := "data-" + chunk.ID; string(chunk.Data) != want {
-		e.violate("leftover-altered", "chunk %s handed back with data %q", chunk.ID, chunk.Data)
+	if want := e.wantData(chunk.ID); string(chunk.Data) != want {
+		e.violate("leftover-altered", "chunk %s handed back with %d bytes of data, fed %d", chunk.ID, len(chunk.Data), len(want))
 	}
+	if chunk.Saved != e.wantSaved(chunk.ID) {
+		e.violate("leftover-altered:saved-flag", "chunk %s handed back with Saved=%v, fed with Saved=%v", chunk.ID, chunk.Saved, e.wantSaved(chunk.ID))
+	}
+}
+
+func (e *env) wantData(id string) string {
+	if e.p.bigChunk > 0 && id == "c1" {
+		return "data-" + id + strings.Repeat("x", e.p.bigChunk)
+	}
+	return "data-" + id
+}
+
+// wantSaved: with savedPattern the even chunks (c2, c4) are already on disk when the client gets them
+func (e *env) wantSaved(id string) bool {
+	return e.p.savedPattern && (id[len(id)-1]-'0')%2 == 0
 }
 
 func (e *env) onFinished() {
@@ -379,11 +421,20 @@ var flagLogs = flag.Bool("logs", false, "print agent logs to stderr")
 
 func chunkID(i int) string { return fmt.Sprintf("c%d", i+1) }
 
+var origAckerStopTimeout, origChannelTimeout = defs.ForwarderAckerStopTimeout, defs.IntermediateChannelTimeout
+
 func makeRun(p params) explore.RunFunc {
 	return func(choose func(*vsched.ChoicePoint) int, trace bool) (explore.Verdict, *vsched.Result) {
 		var verdict explore.Verdict
 		logBuf.Reset()
 		defs.ForwarderMaxPendingChunksForAck = p.ackWindow
+		defs.ForwarderAckerStopTimeout, defs.IntermediateChannelTimeout = origAckerStopTimeout, origChannelTimeout
+		if p.ackerStopTimeout > 0 {
+			defs.ForwarderAckerStopTimeout = p.ackerStopTimeout
+		}
+		if p.channelTimeout > 0 {
+			defs.IntermediateChannelTimeout = p.channelTimeout
+		}
 		e := &env{p: p, consumed: map[string]int{}, leftover: map[string]int{}, taken: map[string]bool{}}
 		res := vsched.Run(vsched.Options{Choose: choose, Trace: trace, MaxSteps: 20000, StateKeys: true, EnvState: e.stateHash}, func() {
 			verdict = drive(e)
@@ -424,7 +475,7 @@ func drive(e *env) explore.Verdict {
 	feed := func() {
 		id := chunkID(fed)
 		fed++
-		input <- base.LogChunk{ID: id, Data: []byte("data-" + id)}
+		input <- base.LogChunk{ID: id, Data: []byte(e.wantData(id)), Saved: e.wantSaved(id)}
 		e.note("feed %s", id)
 	}
 	for i := 0; i < p.prefill; i++ {
@@ -629,6 +680,79 @@ func scenarios(prop string) []*explore.Scenario {
 		g.horizon = 30 * time.Minute
 		add(g, 1, 2, 1)
 	}
+	// ---- scenarios that START in an interesting state through scripted, uncharged first answers
+	for _, inOrder := range []bool{false, true} {
+		mode := "id"
+		if inOrder {
+			mode = "inorder"
+		}
+		// recovery stage: the first ACK read fails by script, so leftovers exist and the next session resends them;
+		// stop / soft reconnect / nothing at any moment of that stage within the usual bound
+		for _, n := range []int{2, 3} {
+			r := params{nChunks: n, prefill: n, inOrder: inOrder, ackWindow: 1, maxAge: age, savedPattern: true,
+				connectAlt: 3, sendAlt: 3, pingAlt: 2, ackAlt: 6, lateDelay: 25 * time.Second, advances: 1, freeAcks: []int{1}}
+			r.name = fmt.Sprintf("recovery/stop/%s/n%d", mode, n)
+			r.script = []string{"stop"}
+			q, t := 2, 3
+			if n == 3 {
+				q, t = 1, 2
+			}
+			add(r, q, t, 2)
+			u := r
+			u.name = fmt.Sprintf("recovery/usr1-stop/%s/n%d", mode, n)
+			u.script = []string{"usr1", "stop"}
+			add(u, 1, 2, 2)
+			l := r
+			l.name = fmt.Sprintf("recovery/live/%s/n%d", mode, n)
+			l.script = nil
+			l.liveness = true
+			l.horizon = 30 * time.Minute
+			add(l, q, t, 1)
+		}
+		// a soft stop (SIGUSR1, maximum session age) that outlasts its time-outs: both waits scaled down, ACKs late by more
+		// than their sum
+		sl := params{nChunks: 3, prefill: 3, inOrder: inOrder, ackWindow: 2, maxAge: age, ackerStopTimeout: 20 * time.Second, channelTimeout: 5 * time.Second,
+			connectAlt: 2, sendAlt: 2, pingAlt: 1, ackAlt: 4, lateDelay: 40 * time.Second, advances: 2}
+		sl.name = fmt.Sprintf("soft-stop-timeout/usr1-stop/%s", mode)
+		sl.script = []string{"usr1", "stop"}
+		add(sl, 1, 2, 2)
+		sv := sl
+		sv.name = fmt.Sprintf("soft-stop-timeout/usr1-live/%s", mode)
+		sv.script = []string{"usr1"}
+		sv.liveness = true
+		sv.horizon = 30 * time.Minute
+		add(sv, 1, 2, 1)
+		sa := sl
+		sa.name = fmt.Sprintf("soft-stop-timeout/maxage-live/%s", mode)
+		sa.maxAge = 30 * time.Second
+		sa.script = nil
+		sa.liveness = true
+		sa.horizon = 30 * time.Minute
+		add(sa, 1, 2, 1)
+	}
+	// more outstanding chunks than window + 2: the first ACKs name unknown IDs (by script), five chunks against a window of one
+	ov := params{nChunks: 5, prefill: 5, ackWindow: 1, maxAge: age, connectAlt: 2, sendAlt: 2, pingAlt: 1, ackAlt: 5, lateDelay: 25 * time.Second, advances: 1,
+		freeAcks: []int{4, 4, 4, 4}}
+	ov.name = "outstanding-beyond-window/stop/id/w1/n5"
+	ov.script = []string{"stop"}
+	add(ov, 1, 2, 2)
+	ol := ov
+	ol.name = "outstanding-beyond-window/live/id/w1/n5"
+	ol.script = nil
+	ol.liveness = true
+	ol.horizon = 30 * time.Minute
+	add(ol, 1, 2, 1)
+	// a chunk whose size matters for the send deadline (2 MiB at the documented minimum speed of 10 KiB/s: 200 s on top of the base)
+	bg := params{nChunks: 2, prefill: 2, ackWindow: 2, maxAge: age, connectAlt: 2, sendAlt: 3, pingAlt: 1, ackAlt: 4, lateDelay: 25 * time.Second, advances: 1, bigChunk: 2 << 20}
+	bg.name = "big-chunk/stop/id/w2/n2"
+	bg.script = []string{"stop"}
+	add(bg, 1, 2, 2)
+	bl := bg
+	bl.name = "big-chunk/live/id/w2/n2"
+	bl.script = nil
+	bl.liveness = true
+	bl.horizon = 30 * time.Minute
+	add(bl, 1, 2, 1)
 	sort.SliceStable(out, func(i, j int) bool { return false })
 	return out
 }
